@@ -71,7 +71,7 @@ func sortCase(c *Case, out *bufio.Writer, st *stats) {
 		if r.D > 0 {
 			dims["d"] = dimNames[r.D]
 		}
-		row := &core.FlatRow{TS: int64(r.TS) * int64(time.Second), Key: bytemap.New(dims), Values: []float64{float64(r.F), float64(r.G)}}
+		row := &core.FlatRow{TS: int64(r.TS) * int64(time.Second), Key: bytemap.New(dims), Values: []float64{float64(r.F) * 0.25, float64(r.G) * 0.25}} // fractions: close values must still be told apart
 		row.SetFields(fields)
 		src.rows = append(src.rows, row)
 	}
@@ -138,9 +138,9 @@ func sortCase(c *Case, out *bufio.Writer, st *stats) {
 					}
 				}
 			case "f":
-				v = int(g.Values[0])
+				v = int(g.Values[0] * 4)
 			case "g":
-				v = int(g.Values[1])
+				v = int(g.Values[1] * 4)
 			}
 			if k.Desc {
 				v = -v
